@@ -423,3 +423,10 @@ def bounds_mask_filter(ctx):
                     cmp_ok = True
     ctx.check(good and cmp_ok, 'collapse_cost#mask', 'the caller\'s mask itself goes through interval_overlap (normalised in place) before `results == mask` decides "nothing new"',
               'collapse_cost no longer filters through interval_overlap(results, mask) before comparing with the mask', g, c)
+
+
+@rule('C11.j', min_instances=2)
+def measure_collapses_are_applied_in_order(ctx):
+    """the constraint a measure collapse is turned into (impose_measure) applies, on every call, every position collapse first and every weight collapse after it, the weight collapse not nullable: impose_collapse moves the weight of the merged point onto the surviving one, so a weight collapse applied before it would be undone and points with a "collapsed" non-zero weight would reach the cost (reference summary shared with C19.g)"""
+    from .c19 import impose_measure_applies_every_collapse
+    impose_measure_applies_every_collapse(ctx)
